@@ -50,10 +50,13 @@ MANIFEST = {
                   "text is <= 4 bytes per payload byte + 200 (render-cost model; the real length is checked against the same bound on every run). "
                   "(11) TimeCodeSEI.Payload and PicTimingAvcSEI.Payload through bits.FixedSliceWriter (C16SeiFswModel.v: the writer is the Go struct "
                   "{buf, off, n, v, accError}; make / buf[off] = b / buf[:off] partial, the `for sw.n >= 8` loop on fuel, 64-bit shifts and masks): "
-                  "C16_bits_FixedSliceWriter_total for EVERY capacity >= 0 and EVERY sequence of WriteBits / WriteFlag / FlushBits (any value, any "
+                  "C16_bits_FixedSliceWriter_total, C16_sei_FixedSliceWriter_Payloads_total, C16_sei_decode_then_FixedSliceWriter_Payload_total: for EVERY capacity >= 0 and EVERY sequence of WriteBits / WriteFlag / FlushBits (any value, any "
                   "width) - no Panic, no OutOfFuel, at most `capacity` bytes; for EVERY message value (any number of clocks, length fields up to and "
                   "beyond 255) Payload() returns <= Size() bytes and 8 Size() <= 9 + 44 clocks + sum of the length fields; composed with the decoders "
-                  "for every payload and every external parameter. On every run the bytes must equal Go's Payload() and C17's total model of it, for decoded "
+                  "for every payload and every external parameter; C16_bits_FixedSliceWriter_is_C17: the bytes are those of C17's total model fsw_bytes for every "
+                  "capacity and every sequence of writes whose values fit Go's uint (simulation: buf[:off] = the output so far while accError is nil, buf = "
+                  "its first `capacity` bytes afterwards), so C17's round-trip / Size theorems speak about what the partial writer returns. On every run the "
+                  "bytes must equal Go's Payload() (and, once more, C17's executable model), for decoded "
                   "messages and for arbitrary message values (length fields 0..255: writes of 256 bits). "
                   "Explored only (search, no theorem): field-level syntax writers "
                   "for AVC and HEVC SPS/PPS/slice drive the pipelines SPS -> PPS -> slice, SPS -> SEI and config record -> parameter sets "
@@ -67,8 +70,7 @@ MANIFEST = {
                   "C16HevcParseModel.v (text generated from C15's, agreement proved wherever C15's model is defined). The PPS multilayer / 3D "
                   "skeletons and the av1 Encode model (byte-level: bits.FixedSliceWriter packing not re-modelled) are C16's own and rest on the "
                   "correspondence (class for the skeletons: hpps has no field for their content; Size + bytes for Encode). The sequences of writes of the two "
-                  "FixedSliceWriter Payload methods are C17's op lists tc_ops / pt_ops (imported read-only); that the partial writer returns the bytes of "
-                  "C17's total model is compared on every case, not proved. The model's "
+                  "FixedSliceWriter Payload methods are C17's op lists tc_ops / pt_ops (imported read-only, tied to the Go text by the Payload bytes compared on every case). The model's "
                   "rep_n (NumDeltaPocs + 1) is the Go byte loop only for NumDeltaPocs <= 254, which the RPS-bound theorem establishes. "
                   "Hang detection: one confirmation run of 5 s per timed-out case, at most 2 confirmed hangs are waited for per phase. "
                   "Go int is taken to be 64 bit (no wrap of len+2^32). Real time and heap are observed, not proved.",
